@@ -392,43 +392,48 @@ def _renewal(ctx, nz, server, loop):
                 graph, n, lambda e, ed=edge: e is ed, start=loop.head)]
             ctx.require(removes, 'removal after a failed renewal')
             for rnode in removes:
-                recs = {}
+                # what the removal is performed on (the renewing server)
+                rcall = [c for c in C.node_calls(rnode)
+                         if loop.removes(c)][0]
+                srv_txt = K.recv_text(rcall)
+                # records made between the failed test and the removal
+                rec_server = rec_expiry = None
                 for node in graph.nodes:
-                    if node.kind == 'stmt' and isinstance(
-                            node.ast, ast.Assign) and isinstance(
-                                node.ast.targets[0], ast.Subscript) and \
-                            isinstance(node.ast.targets[0].slice,
-                                       ast.Constant):
-                        dom_ok = K.guarded_by(graph, rnode,
-                                              lambda e, n=node: e.src is n,
-                                              start=test)
-                        if dom_ok:
-                            recs[node.ast.targets[0].slice.value] = (
-                                N.txt(node.ast.targets[0].value),
-                                N.txt(node.ast.value))
-                ok = 'server' in recs and \
-                    recs.get('placement_expiry', ('', ''))[1] == \
-                    '%s.placement_expiry' % var
-                ctx.ob('C03.5', loop.func, rnode, ok,
-                       'server and expiry recorded before the removal: %s'
-                       % recs)
-                dname = recs.get('server', ('restore',))[0]
+                    if node.kind != 'stmt' or not isinstance(node.ast,
+                                                             ast.Assign):
+                        continue
+                    if len(node.ast.targets) != 1:
+                        continue
+                    tgt = node.ast.targets[0]
+                    if not isinstance(tgt, (ast.Name, ast.Subscript)):
+                        continue
+                    if not K.guarded_by(graph, rnode,
+                                        lambda e, n=node: e.src is n,
+                                        start=test):
+                        continue
+                    val = N.txt(node.ast.value)
+                    if val == srv_txt:
+                        rec_server = N.txt(tgt)
+                    elif val == '%s.placement_expiry' % var:
+                        rec_expiry = N.txt(tgt)
+                ctx.ob('C03.5', loop.func, rnode,
+                       rec_server is not None and rec_expiry is not None,
+                       'server and expiry are recorded before the removal '
+                       '(server -> %s, expiry -> %s)' % (rec_server,
+                                                        rec_expiry))
                 calls = [c for n in graph.nodes
                          for c in C.node_calls(n)
-                         if K.is_meth(c, 'restore') and
-                         K.rtxt(loop.func, K.recv(c)) ==
-                         "%s['server']" % dname]
+                         if K.is_meth(c, 'restore') and rec_server and
+                         K.rtxt(loop.func, K.recv(c)) == rec_server]
                 ok = bool(calls) and all(
                     len(c.args) == 2 and N.txt(c.args[0]) == var and
-                    K.rtxt(loop.func, c.args[1]) ==
-                    "%s['placement_expiry']" % dname
+                    K.rtxt(loop.func, c.args[1]) == rec_expiry
                     for c in calls)
                 ctx.ob('C03.5', loop.func, calls[0] if calls else None, ok,
                        'the fallback restores exactly the recorded server '
                        'and expiry',
-                       construct="%s['server'].restore(%s, %s["
-                                 "'placement_expiry'])" % (dname, var,
-                                                           dname))
+                       construct='<recorded server>.restore(%s, <recorded '
+                                 'expiry>)' % var)
 
 
 def _unknown_traits(ctx):
